@@ -93,6 +93,12 @@ MUTANTS = [
  ("M28-import-init-panic-escapes", "C06", "src.go",
   "\t\tif r := recover(); r != nil {\n\t\t\tvar pc [64]uintptr // 64 frames should be enough.\n\t\t\tn := runtime.Callers(1, pc[:])\n\t\t\terr = Panic{Value: r, Callers: pc[:n], Stack: debug.Stack()}\n\t\t}\n", "\t\tif r := recover(); r != nil {\n\t\t\tpanic(r)\n\t\t}\n\t\t_, _ = runtime.Callers, debug.Stack\n",
   "a panic raised while a source package is initialised escapes Eval again (re-introduces the defect repaired by 7789d12)"),
+ ("M30-terminate-then-go-statement", "C19", "debugger.go",
+  "\tif dbg.gLive == nil {\n\t\t// Terminate has been called: the Go routine stops at its first statement.\n\t\tg.mode = DebugTerminate\n\t} else {\n\t\tdbg.gLive[g.id] = g\n\t}\n", "\tdbg.gLive[g.id] = g\n",
+  "a goroutine started after Terminate registers in the nil table again (re-introduces the defect repaired by 773c1d0)"),
+ ("M31-cancelled-receive-stores-done-value", "C10", "run.go",
+  "\t\t\t\tchosen, v, _ := reflect.Select([]reflect.SelectCase{done, {Dir: reflect.SelectRecv, Chan: ch}})\n\t\t\t\tif chosen == 0 {\n\t\t\t\t\t// Cancelled: v is the zero value of the done channel, which\n\t\t\t\t\t// must not be stored in the destination variable.\n\t\t\t\t\treturn nil\n\t\t\t\t}\n\t\t\t\tgetFrame(f, l).data[i] = v\n", "\t\t\t\tchosen, v, _ := reflect.Select([]reflect.SelectCase{done, {Dir: reflect.SelectRecv, Chan: ch}})\n\t\t\t\tgetFrame(f, l).data[i] = v\n\t\t\t\tif chosen == 0 {\n\t\t\t\t\treturn nil\n\t\t\t\t}\n",
+  "the cancellable receive stores the selected value before testing the chosen case (re-introduces the defect repaired by bc0ee3f)"),
  ("M29-done-channel-per-evaluation", "C09", "interp.go",
   "\tif interp.done == nil {\n\t\tinterp.done = make(chan struct{})\n\t}\n", "\tinterp.done = make(chan struct{})\n",
   "every WithContext entry point installs a fresh done channel again (re-introduces the defect repaired by ff0a250)"),
